@@ -1,7 +1,7 @@
 SPECIFICATION Spec
-CONSTANTS Proc = {0, 1}  N = 3  Keys = {1}  MaxOps = 3  MaxW = 1  Spurious = FALSE
+CONSTANTS Proc = {0}  N = 3  Keys = {1}  MaxOps = 4  MaxW = 1  Spurious = FALSE
           Pre <- PreTwo
-          Kinds <- Qu2Kinds
+          Kinds <- AllKinds
 INVARIANTS TypeOK OneWriter ReaderHoldsEntry Asserts Quiescent
 ACTION_CONSTRAINT Dump
 CHECK_DEADLOCK FALSE
